@@ -2,16 +2,30 @@
 """print the prompt for an independent seeding agent for one property (contains only the property text)"""
 import json, sys
 pid = sys.argv[1]
+# round 2: tools/seed_prompt.py CNN C D  -> variants C and D, told (in one line each) what the earlier variants changed
+V1, V2 = (sys.argv[2], sys.argv[3]) if len(sys.argv) > 3 else ("A", "B")
+ROUND2 = V1 != "A"
+TAG = "seed2" if ROUND2 else "seed"
 for l in open('/verif/properties.jsonl'):
     p = json.loads(l)
     if p['id'] == pid:
         break
 a = p['anchors']
+earlier = ""
+if ROUND2:
+    import glob, os
+    lines = []
+    for d in sorted(glob.glob('/verif/seeded/%s_*' % pid)):
+        m = json.load(open(d + '/meta.json'))
+        summ = ((m.get('agent_meta') or {}).get('summary') or '')[:400]
+        lines.append("  - " + summ)
+    earlier = ("\nOther engineers already delivered the following changes for this property; yours must be DIFFERENT (another mechanism, site, clause "
+               "of the statement or kind of mistake), do not repeat them:\n" + "\n".join(lines) + "\n")
 mech = "\n".join("  - %s (%s)" % (m['name'], m['where']) for m in a['mechanism'])
 print(f"""You are a software engineer helping to evaluate a verification effort for the Python project androguard
 (a parser for Android DEX/APK/AXML/ARSC files with bytecode analysis and a decompiler).
-You have your own scratch git worktree of the repository at /tmp/seed_{pid} (already created; the package is ./androguard,
-tests are ./tests, run python as /venv/bin/python). Work ONLY inside /tmp/seed_{pid} and write your results to /tmp/seed_out/{pid}/.
+You have your own scratch git worktree of the repository at /tmp/{TAG}_{pid} (already created; the package is ./androguard,
+tests are ./tests, run python as /venv/bin/python). Work ONLY inside /tmp/{TAG}_{pid} and write your results to /tmp/{TAG}_out/{pid}/.
 Do NOT read, list or use anything under /verif, and do not touch /repo.
 
 The property under evaluation:
@@ -23,11 +37,12 @@ The property under evaluation:
 {mech}
   Observed at: {', '.join(a['observe_at'])}
 
-Your task: produce TWO independent, realistic changes to the androguard source (variant A and variant B, touching different
+{earlier}
+Your task: produce TWO independent, realistic changes to the androguard source (variant {V1} and variant {V2}, touching different
 mechanisms or sites) each of which BREAKS this property while
   (1) the package still compiles/imports,
   (2) the existing test suite still passes exactly as before. Baseline: in a pristine worktree run
-      `cd /tmp/seed_{pid} && /venv/bin/python -m pytest -q -p no:cacheprovider --timeout=900 -x -q tests 2>&1 | tail -5` once BEFORE changing anything
+      `cd /tmp/{TAG}_{pid} && /venv/bin/python -m pytest -q -p no:cacheprovider --timeout=900 -x -q tests 2>&1 | tail -5` once BEFORE changing anything
       (a few tests fail in any worktree because large test APKs are not checked in - that is the baseline; record the
       failing set with `-q -rf` instead of -x if needed). With your change the set of passing tests must be unchanged.
       The full suite takes 2-4 minutes; you may run only the relevant test modules while iterating but run the full suite once per final variant,
@@ -37,17 +52,17 @@ mechanisms or sites) each of which BREAKS this property while
       in a refactor or 'optimisation' (an off-by-one in a mask or bound, a swapped operand, a dropped guard on a rare path, a
       changed default, a cache that is not invalidated, a comparison that is right except at one boundary ...), written in natural code,
       not an obviously planted 'if x == 1234' bomb.
-For each variant also write a demonstration: a small standalone program /tmp/seed_out/{pid}/demo_A.py (resp. demo_B.py) that uses only the
+For each variant also write a demonstration: a small standalone program /tmp/{TAG}_out/{pid}/demo_{V1}.py (resp. demo_{V2}.py) that uses only the
 public androguard API (plus the standard library; it may synthesise tiny DEX/AXML/ARSC/APK byte strings or use files under tests/data),
 exits 0 and prints PASS on the ORIGINAL code and exits non-zero (prints FAIL with what was observed vs expected) WITH your change.
-The demo is run as `cd <worktree> && /venv/bin/python /tmp/seed_out/{pid}/demo_A.py`, so it must import androguard from the current directory
+The demo is run as `cd <worktree> && /venv/bin/python /tmp/{TAG}_out/{pid}/demo_{V1}.py`, so it must import androguard from the current directory
 (insert os.getcwd() at the front of sys.path).
 
-Deliverables in /tmp/seed_out/{pid}/ :
-  variant_A.diff, variant_B.diff  — `git diff` output against the pristine worktree HEAD (each applies on its own to a clean tree)
-  demo_A.py, demo_B.py
-  meta.json — {{"property": "{pid}", "variants": {{"A": {{"summary": "...", "needs_to_manifest": "...", "files": [...],
-               "tests_run": "<command and result>", "demo_result_original": "PASS", "demo_result_changed": "FAIL ..."}}, "B": {{...}}}}}}
+Deliverables in /tmp/{TAG}_out/{pid}/ :
+  variant_{V1}.diff, variant_{V2}.diff  — `git diff` output against the pristine worktree HEAD (each applies on its own to a clean tree)
+  demo_{V1}.py, demo_{V2}.py
+  meta.json — {{"property": "{pid}", "variants": {{"{V1}": {{"summary": "...", "needs_to_manifest": "...", "files": [...],
+               "tests_run": "<command and result>", "demo_result_original": "PASS", "demo_result_changed": "FAIL ..."}}, "{V2}": {{...}}}}}}
 Verify yourself before finishing: for each variant, from a clean tree (`git checkout -- .`), `git apply` the diff, run the full test suite
 (same pass set as baseline), run the demo (must FAIL), `git checkout -- .`, run the demo again (must PASS).
 Leave the worktree clean (`git checkout -- .`) when done. Reply with a 5-line summary per variant.
